@@ -1551,7 +1551,7 @@ void ScriptVariable::setArrayAtRef(const ScriptVariable& index, const ScriptVari
     case variableType_e::Vector:
         intValue = index.intValue();
 
-        if (intValue > 2) {
+        if (intValue < 0 || intValue > 2) {
             throw ScriptVariableErrors::TypeIndexOutOfRange("Vector", intValue);
         }
 
@@ -1589,7 +1589,7 @@ void ScriptVariable::setArrayAtRef(const ScriptVariable& index, const ScriptVari
         intValue = index.intValue();
         string = stringValue();
 
-        if (intValue >= (intptr_t)string.length()) {
+        if (intValue < 0 || intValue >= (intptr_t)string.length()) {
             throw ScriptVariableErrors::TypeIndexOutOfRange("String", intValue);
         }
 
